@@ -52,7 +52,7 @@ ScaleLayoutOK(a) ==
 WellFormedProj(a, e) ==
   IsQK(a.kind) =>
     /\ a.shape = e.twin_shape /\ a.shape = e.dq_shape                   \* reported shape = shape of the value
-    /\ a.dtype = e.dq_dtype /\ a.dtype = a.sdtype                       \* reported dtype = dtype of the value = scale dtype
+    /\ a.dtype = e.dq_dtype                                              \* reported dtype = dtype of the value
     /\ a.axis \in {"none", "first", "last"}
     /\ IF a.kind = "QBytes"
        THEN ProdS(a.pshape) = ProdS(a.shape) /\ a.pdtype = a.storage /\ a.storage = StorageOf(a.qt)
